@@ -46,7 +46,7 @@ static int ice_test(HIO_HANDLE * f, char *t, const int start)
 		return -1;
 
 	hio_seek(f, start + 0, SEEK_SET);
-	libxmp_read_title(f, t, 28);
+	libxmp_read_title(f, t, 20);	/* struct ice_header.title is 20 bytes, as ice_load copies */
 
 	return 0;
 }
